@@ -233,7 +233,26 @@ def check_dispatch(spec):
     return res
 
 
+class RegNum:
+    """A number type pymbolic does not know until register_constant_class() names it."""
+
+    def __init__(self, v):
+        self.v = v
+
+    def __eq__(self, other):
+        return isinstance(other, RegNum) and other.v == self.v
+
+    def __hash__(self):
+        return hash(("RegNum", self.v))
+
+    def __repr__(self):
+        return f"RegNum({self.v})"
+
+
 FOREIGN = {
+    # registered for the duration of the case / registered and unregistered again
+    "registered-constant-class": (RegNum(3), "map_constant"),
+    "unregistered-constant-class": (RegNum(4), None),
     "int": (5, "map_constant"), "float": (2.5, "map_constant"),
     "complex": (1 + 2j, "map_constant"), "bool": (True, "map_constant"),
     "np.int64": (np.int64(3), "map_constant"), "np.float64": (np.float64(1.5), "map_constant"),
@@ -251,6 +270,19 @@ def check_foreign(spec):
     res = Result()
     obj, want = FOREIGN[spec["kind"]]
     args = tuple(spec["args"])
+    if spec["kind"].endswith("constant-class"):
+        p.register_constant_class(RegNum)
+        try:
+            if spec["kind"].startswith("unregistered"):
+                p.unregister_constant_class(RegNum)
+            return _check_foreign(res, spec, obj, want, args)
+        finally:
+            if RegNum in p.VALID_CONSTANT_CLASSES:
+                p.unregister_constant_class(RegNum)
+    return _check_foreign(res, spec, obj, want, args)
+
+
+def _check_foreign(res, spec, obj, want, args):
     for base in (Mapper, CachedMapper):
         log = []
         m = make_mapper(base, ["map_constant", "map_numpy_array", "map_list", "map_tuple"],
@@ -403,7 +435,9 @@ def check_identity(spec):
             d = walk.first_diff(e, r)
             res.fail(f"{who}:result-not-equal@{d[0]}.{d[1]}" if d else f"{who}:result-not-equal",
                      f"{who}()({e!r}) returned {r!r}")
-        elif isinstance(e, (p.Expression, tuple)) and r is not e:
+        elif isinstance(e, (p.Expression, tuple)) and r is not e and not any(
+                isinstance(n, (list, np.ndarray)) for _, n in walk.occurrences(e)):
+            # lists and arrays (mutable) are always copied, and so is what contains them
             res.fail(f"{who}:unchanged-tree-rebuilt", f"{who}()({e!r}) returned a copy")
     names = set(spec.get("rename", []))
     if names:
@@ -424,9 +458,48 @@ def check_identity(spec):
                          f"{e!r} renaming {sorted(names)}: got {r!r}, expected {want!r}")
             elif "Cached" not in who:
                 _sharing(res, e, r, names, who)
+    # a derived identity mapper that replaces every constant by an == constant of
+    # another type: what it returns for the children is what the parent is rebuilt from
+    if not _cse_zero_inside(e):
+        want = walk.transform(e, _retype_leaf)
+        res.compared()
+        try:
+            r = _Retyper()(e, *extra, **kw)
+        except Exception as exc:
+            res.fail(f"retyping IdentityMapper:raised:{exc_site(exc)}",
+                     f"on {e!r}: {type(exc).__name__}: {exc}")
+        else:
+            if repr(walk.key(r, strict=True)) != repr(walk.key(want, strict=True)):
+                d = walk.first_diff(want, r)
+                res.fail("retyping IdentityMapper:differs-from-rebuild"
+                         + (f"@{d[0]}.{d[1]}" if d else ""),
+                         f"{e!r} with constants retyped: got {r!r}, expected {want!r}")
+            if repr(walk.key(want, strict=True)) != repr(walk.key(e, strict=True)):
+                res.label("identity:retyped-constants")
     _classify(res, spec, e)
     res.sample = {"expr": repr(e)[:250], "rename": sorted(names), "args": list(extra)}
     return res
+
+
+def _retype_const(c):
+    if isinstance(c, (bool, np.bool_)):
+        return int(c)
+    if type(c) is int and abs(c) < 2 ** 50:
+        return float(c)
+    if type(c) is float and c == c and abs(c) < 2 ** 50 and c == int(c):
+        return int(c)
+    return c
+
+
+def _retype_leaf(n):
+    if isinstance(n, (p.Expression, tuple, list, np.ndarray)) or not p.is_constant(n):
+        return None
+    return (_retype_const(n),)
+
+
+class _Retyper(IdentityMapper):
+    def map_constant(self, expr, *args, **kwargs):
+        return _retype_const(expr)
 
 
 class _Recorder(WalkMapper):
@@ -436,7 +509,7 @@ class _Recorder(WalkMapper):
 
     def visit(self, expr, *args, **kwargs):
         self.events.append(("visit", expr, args, kwargs))
-        if isinstance(expr, (p.Expression, tuple)) and walk.children(expr) \
+        if isinstance(expr, (p.Expression, tuple, list, np.ndarray)) and walk.children(expr) \
                 and walk.key(expr, strict=True) in self.prune_keys:
             return False
         return True
@@ -783,6 +856,18 @@ def dispatch_case(draw):
 @st.composite
 def traversal_case(draw, nodes=S.ALL_COMPOSITE, wild=True, nan=True):
     ex = draw(S.any_expr(draw(st.integers(1, 5)), nodes=nodes, wild=wild, nan=nan))
+    if draw(st.integers(0, 9)) == 0:
+        # object arrays of rank 1-3 (as a call argument or on their own): one node per
+        # element, none for rows or planes
+        shape = draw(st.sampled_from(([2], [1, 2], [2, 1], [2, 2], [2, 1, 2], [3], [0],
+                                      [1, 1])))
+        k = 1
+        for q in shape:
+            k *= q
+        items = [ex if i == 0 else draw(S.any_expr(1, nodes=nodes, wild=wild, nan=nan))
+                 for i in range(k)]
+        arr = ["NpArray", items] if len(shape) == 1 else ["NpArray", items, shape]
+        ex = arr if draw(st.booleans()) else ["Call", ["Var", "f"], [arr, ["Var", "x"]]]
     names = sorted({s[1] for s in subspecs(ex) if s[0] == "Var"})
     return {"expr": ex,
             "rename": draw(st.lists(st.sampled_from(names), unique=True, max_size=2))
